@@ -26,6 +26,11 @@ class HarnessError(Exception):
     """the harness itself (generator, reference model, explorer) is wrong - never a verdict"""
 
 
+class ReplayDiffers(HarnessError):
+    """two replays of the same schedule on the same objects were observed to differ"""
+
+
+
 def bind_repo():
     """import mofun from REPO's working tree and nowhere else"""
     if sys.path[0] != REPO:
@@ -106,6 +111,13 @@ def run_one(mod, sc, ctx):
         open('/tmp/verif-trace-%d' % os.getpid(), 'w').write(repr(sc))
     try:
         return mod.run(sc, ctx)
+    except Exception as e:
+        if type(e).__name__ != 'ReplayDiffers':      # by name: this file runs as __main__ and is imported as mc.engine.run by the checks
+            raise
+        # the same call on the same objects with the same answers to every random draw gave two different results: the
+        # library keeps state between calls (every nondeterminism of the harness side is owned: PYTHONHASHSEED, warnings, draws)
+        return dict(evals=2, compared=1, violations=[dict(clause='history', sig='same-call-differs', scenario=sc, concrete={},
+                    msg='the same call on the same objects with the same answers to every random draw gave two different results (state kept between calls): %s' % e)])
     except ScenarioTimeout:
         return dict(evals=1, violations=[dict(clause='no-result', sig='timeout', scenario=sc,
                     msg='scenario did not finish within %.0fs' % float(ctx.get('timeout') or SCENARIO_TIMEOUT))])
